@@ -181,6 +181,11 @@ impl<'a, 'l> TextSearch<'a, 'l> {
 }
 
 fn check_text(case: &Case, obs: &mut Obs) -> Verdict {
+    let o = case.o(0);
+    either_reading(case.t(0), o.le(), obs, |universal, obs| check_text_reading(case, obs, universal))
+}
+
+fn check_text_reading(case: &Case, obs: &mut Obs, universal: bool) -> Verdict {
     let text = case.t(0);
     let o = case.o(0);
     if !o.available() {
@@ -209,7 +214,7 @@ fn check_text(case: &Case, obs: &mut Obs) -> Verdict {
     let splitter = o.split_build();
     let mut paras = Vec::new();
     let mut exp = Vec::new();
-    for (k, para) in text.split(o.le()).enumerate() {
+    for (k, para) in split_paragraphs(text, o.le(), universal).into_iter().enumerate() {
         let a = para_fragments(para, o, &splitter);
         if !a.lossless {
             return Verdict::Skipped("pipeline fragments are not lossless (reported under C11/C12)");
